@@ -4,9 +4,16 @@ from gsa.facts import Unit, rel, AnalysisBroken
 from gsa.report import Check
 from rules import c01
 
-UNITS = c01.UNITS
+UNITS = c01.UNITS + [Unit('rips', 'rips_pat.cpp', ['src/Rips_complex/include/gudhi/Rips_complex.h',
+                                                      'src/common/include/gudhi/graph_simplicial_complex.h'],
+                          no_inst=True)]
 H = 'src/Simplex_tree/include/gudhi/Simplex_tree.h'
 OUT = 'added_simplices'
+
+
+def c03_only(F, unit):
+    from rules import c03
+    return c03._only(F, unit)
 
 
 def is_push(x):
@@ -14,6 +21,88 @@ def is_push(x):
         return False
     r = ir.call_receiver(x)
     return r is not None and OUT in ir.show(r)
+
+
+def run_vertex_count(chk, F):
+    """The Rips builders hand the graph constructor a vertex count: it must be the number of points - a counter
+    started at 0 and incremented exactly once on every path through an iteration of the loop over all points, a loop
+    that is never left early"""
+    fs = [f for f in F.funcs('compute_proximity_graph', unit='rips') if f['inst'] in (0, 2)]
+    if len(fs) < 2:
+        raise AnalysisBroken('C04: the two compute_proximity_graph builders were not found')
+    for f in fs:
+        where = '%s:%d' % (rel(f['file']), f['line'])
+        # the graph construction: 4 arguments (edge begin, edge end, weights, number of vertices)
+        ctor = [x for x in ir.walk(f['body']) if x.get('k') in ('CXXNewExpr', 'VarDecl', 'CXXUnresolvedConstructExpr',
+                                                                 'CXXConstructExpr', 'ParenListExpr')]
+        count_var = None
+        for x in ir.walk(f['body']):
+            if x.get('k') in ('ParenListExpr', 'CXXUnresolvedConstructExpr', 'CXXConstructExpr', 'InitListExpr'):
+                args = x.get('c') or []
+                if len(args) == 4 and ir.show(args[0]) == 'edges.begin()' and ir.show(args[1]) == 'edges.end()':
+                    count_var = ir.show(args[3])
+        if count_var is None:
+            raise AnalysisBroken('C04: graph construction with a vertex count not found in %s' % where)
+        loops = [x for x in ir.walk(f['body']) if x.get('k') == 'ForStmt' and 'points' in ir.show(x.get('cond'))
+                 and ir.contains(x.get('body'), lambda y: y.get('k') == 'ForStmt')]
+        if len(loops) != 1:
+            raise AnalysisBroken('C04: outer loop over the points not found in %s' % where)
+        lp = loops[0]
+
+        def cl(x, v=count_var):
+            if x.get('k') == 'UnaryOperator' and x.get('op') == '++' and ir.show(x['c'][0]) == v:
+                return ['INC']
+            if x.get('k') in ('BreakStmt', 'ReturnStmt', 'GotoStmt'):
+                return ['EXIT']
+            return []
+        pseudo = {'body': {'k': 'CompoundStmt', 'c': [lp.get('body'), lp.get('inc')] if lp.get('inc') else
+                           [lp.get('body')], 'l': lp.get('l')}, 'name': f['name'], 'file': f['file']}
+        ps = paths.enumerate_paths(pseudo, cl, loop_mode='01', keep_conds=True)
+        bad = None
+        for p in ps:
+            tags = p.tags()
+            # a break inside the inner loop ends only the inner loop (the engine closes it); an outer one survives
+            if p.end in ('break', 'return') or tags.count('INC') != 1:
+                bad = p
+                break
+        init_ok = any(ir.show(x) in ('(%s = 0)' % count_var,) or (x.get('k') == 'VarDecl' and x.get('n') == count_var
+                                                                    and ir.show(x.get('init')) == '0')
+                      for x in ir.walk(f['body']))
+        ok = bad is None and init_ok
+        chk.ob('E2n-vertex-count', '%s: the vertex count %s handed to the graph equals the number of points' % (
+            f['name'], count_var), where, ok,
+            '' if ok else ('the counter is not started at 0' if not init_ok else 'an iteration of the loop over the '
+                           'points can end (%s) with the counter incremented %d times: the graph gets fewer vertices '
+                           'than there are points' % (bad.end, bad.tags().count('INC'))),
+            key='E2n|%s|vertex-count|%s' % (f['name'], rel(f['file']).split('/')[-1]))
+
+
+def run_graph_values(chk, F):
+    """insert_graph takes the value of every vertex from the graph's vertex property and of every edge from its edge
+    property: both property reads flow into the creation of the corresponding nodes"""
+    fs = [f for f in F.funcs('insert_graph', cls='Simplex_tree', unit='st_pat') if f['inst'] in (0, 2)]
+    if len(fs) != 1:
+        raise AnalysisBroken('C04: insert_graph not found')
+    f = fs[0]
+    cl = c01.make_classify(f)
+    reads = {'vertex_filtration_t': False, 'edge_filtration_t': False}
+    for x in ir.walk(f['body']):
+        ev = cl(x)
+        is_create = 'CREATE' in ev or (ir.is_call(x) and ir.call_name(x) == 'insert_node_')
+        # the value may reach the creating call through a local range / lambda: accept def-use through locals
+        if is_create:
+            ids = {y.get('id') for y in ir.walk(x) if y.get('k') == 'DeclRefExpr'}
+            srcs = [x] + [d for d in ir.walk(f['body']) if d.get('k') == 'VarDecl' and d.get('id') in ids]
+            for s_ in srcs:
+                t = ' '.join(ir.show(y) for y in ir.walk(s_))
+                for tag in reads:
+                    if tag in t:
+                        reads[tag] = True
+    for tag, ok in reads.items():
+        chk.ob('E10-graph-values', 'insert_graph creates the %s from the graph\'s %s property' % (
+            'vertices' if tag.startswith('vertex') else 'edges', tag), '%s:%d' % (H, f['line']), ok,
+            '' if ok else 'no node creation of insert_graph depends on get(%s(), ...): the values stored in the graph '
+            'are ignored' % tag, key='E10|insert_graph|%s' % tag)
 
 
 def run(tier, replay=None):
@@ -25,7 +114,7 @@ def run(tier, replay=None):
                 'That the three expansion routes build the same complex, and the filtration values, are not decided.',
                 'structured path rule with pairing/counting (E2n) over the clang AST')
     F = facts.extract(UNITS)
-    cls, fns = c01.simplex_tree_functions(F)
+    cls, fns = c01.simplex_tree_functions(c03_only(F, 'st_pat'))
     G = summary.ClassGraph(fns)
     reporters = [f for f in fns if any(p.get('n') == OUT for p in f.get('params', []))]
     chk.expect_count('E2n-report', 'functions taking added_simplices', len(reporters), 5)
@@ -113,5 +202,7 @@ def run(tier, replay=None):
         chk.ob('E2n-report', '%s: nothing is pushed that was not created' % f['name'], where, bad_extra is None,
                '' if bad_extra is None else 'push at line %s without a preceding creation on the path'
                % bad_extra[1].get('l'), key='E2n|%s|extra' % f['name'])
+    run_vertex_count(chk, F)
+    run_graph_values(chk, F)
     chk.assumptions += ['clang 14 parser', 'class-local call resolution by name', 'for-all loop idiom (DESIGN 3/E2 i)']
     return chk
